@@ -6,7 +6,10 @@ Functions under contract (all obligations generated from the source in the tree 
                                                   bounds; start points inside; value = min of the evaluated values, location = that run's clipped end point
     AcquisitionBase._add_noise [4 noise settings] per column: zero variance => unchanged, else truncnorm on exactly [lo_i, hi_i] (loop invariant)
     AcquisitionBase.acquire [2], MaxVar.acquire, ExpIntVar.acquire [2], UniformAcquisition.acquire: exactly n points, shape (n, dim), inside the bounds
-    RandMaxVar.acquire [2 samplers]               shape / exactly n points / acquired points are chain states; "inside the bounds" is REFUTED (F8, known finding)
+    RandMaxVar.acquire [2 samplers]               shape / exactly n points / acquired points are chain states; "inside the bounds" is REFUTED (F8, known finding);
+                                                  the log-density closures handed to mcmc are run on a symbolic point: call-pre of the callee (C09): nuts needs a 0-d
+                                                  log-target and a vector gradient, metropolis a one-element log-target
+    MaxVar.evaluate [theta 1-d / 2-d]             shape (rows, 1) of the value (what the closures above receive from self.evaluate)
     BayesianOptimization.__init__ [2], update, _should_optimize, n_evidence, _get_acquisition_index, _resolve_initial_evidence [3],
     _allow_submit, prepare_new_batch, ParameterInference.iterate (glue: prepare_new_batch only right after _allow_submit said yes)
   CAS tier (contracts/c11_cas.py; sympy, all real values at the listed shapes): LCBSC / MaxVar evaluate_gradient = d evaluate
@@ -161,7 +164,8 @@ def replay_refuted(cname, rf):
     kind = rf.get('kind', '')
     want = None
     if fam == 'randmaxvar':
-        want = 'c11:randmaxvar-point-count' if 'number of points' in kind else ('c11:prior-support-not-in-bounds' if 'inside the bounds' in kind else None)
+        want = 'c11:randmaxvar-point-count' if 'number of points' in kind else ('c11:prior-support-not-in-bounds' if 'lies inside the bounds' in kind else
+                                                                               ('c11:randmaxvar-nuts-crash' if 'mcmc.nuts' in kind else None))
     if fam == 'gradient':
         rule = 'lcbsc' if cname.startswith('LCBSC') else 'maxvar'
         fails = [f for f in fails if f['input'].get('rule') == rule]
